@@ -18,7 +18,23 @@ pub struct Case17 {
     pub rows: Vec<Row>,
 }
 
-const FILE_PATHS: [&str; 4] = ["data/bank/okane/2024-01.csv", "stmt/card/visa-okane.csv", "import/bank/checking/202109.csv", "x.csv"];
+const FILE_PATHS: [&str; 7] = [
+    "data/bank/okane/2024-01.csv",
+    "stmt/card/visa-okane.csv",
+    "import/bank/checking/202109.csv",
+    "x.csv",
+    // a directory name continued by other characters: `path: bank/` must not select these
+    "data/bankcard/2024.csv",
+    "stmt/cards/visa/okane-card.csv",
+    "import/bank.old/bank/2021.csv",
+];
+
+/// byte offsets at which a path component of `file` starts
+fn component_starts(file: &str) -> Vec<usize> {
+    let mut v = vec![0];
+    v.extend(file.match_indices('/').map(|(i, _)| i + 1));
+    v
+}
 
 fn gen_doc_path(r: &mut Rng, file: &str) -> String {
     if r.chance(1, 6) {
@@ -26,6 +42,35 @@ fn gen_doc_path(r: &mut Rng, file: &str) -> String {
         return (*r.pick(&["viseca/", "zz", "bank\\okane", "OKANE", "2025"])).to_string();
     }
     let b = file.as_bytes();
+    if r.chance(1, 4) {
+        // a directory written with its trailing separator: the beginning of a component (all of it,
+        // or only some of its first characters) followed by '/'; it occurs in the file path exactly
+        // when the '/' is there too, never because the text without the '/' occurs
+        let starts = component_starts(file);
+        let st = *r.pick(&starts);
+        let comp_len = file[st..].find('/').unwrap_or(file.len() - st);
+        let take = if r.chance(1, 2) { comp_len } else { 1 + r.below(comp_len.max(1) as u64) as usize };
+        let take = take.min(comp_len);
+        if file.is_char_boundary(st + take) && take > 0 {
+            // sometimes with the preceding separator or the preceding component
+            let from = if st > 0 && r.chance(1, 3) { if r.chance(1, 2) { st - 1 } else { *r.pick(&starts).min(&st) } } else { st };
+            return format!("{}/", &file[from..st + take]);
+        }
+    }
+    if r.chance(1, 12) {
+        // shapes a path normaliser would rewrite ("./x", "x//y", "x/./y"); the documented rule is the
+        // plain substring test on the path as written
+        let starts = component_starts(file);
+        let st = *r.pick(&starts);
+        let end = file[st..].find('/').map(|n| st + n).unwrap_or(file.len());
+        let next_end = if end < file.len() { file[end + 1..].find('/').map(|n| end + 1 + n).unwrap_or(file.len()) } else { end };
+        return match r.below(3) {
+            0 => format!("./{}", &file[st..end]),
+            1 if end < file.len() => format!("{}//{}", &file[st..end], &file[end + 1..next_end]),
+            _ if end < file.len() => format!("{}/./{}", &file[st..end], &file[end + 1..next_end]),
+            _ => format!("{}/.", &file[st..end]),
+        };
+    }
     let len = (*r.pick(&[0usize, 1, 2, 4, 4, 5, 5, 9])).min(b.len());
     let start = r.below((b.len() - len + 1) as u64) as usize;
     file[start..start + len].to_string()
@@ -134,11 +179,29 @@ pub fn gen_case(r: &mut Rng) -> Case17 {
     let docs: Vec<Doc> = (0..n).map(|i| { let rich = i == 0 || r.chance(1, 3); gen_doc(r, &file, rich) }).collect();
     let (layout, header) = gen_layout(r);
     let rows = gen_rows(r, &layout);
+    let mut docs = docs;
+    if r.chance(1, 5) {
+        // a named group that matches the empty string on one of the records, then a rule that
+        // tells the rewritten (empty) payee from the original one
+        let payee = rows[r.below(rows.len() as u64) as usize].fields[1].clone();
+        let pair = gen_empty_group_rules(r, &payee);
+        let matching: Vec<usize> = (0..docs.len()).filter(|i| file.contains(&docs[*i].path)).collect();
+        let di = if matching.is_empty() || r.chance(1, 6) { r.below(docs.len() as u64) as usize } else { *r.pick(&matching) };
+        let at = r.below(docs[di].rewrite.len() as u64 + 1) as usize;
+        let mut pair = pair;
+        let b = pair.pop().unwrap();
+        let a = pair.pop().unwrap();
+        docs[di].rewrite.insert(at, a);
+        // the follow-up comes later in the same document, not always adjacent
+        let at2 = at + 1 + r.below((docs[di].rewrite.len() - at) as u64) as usize;
+        let at2 = at2.min(docs[di].rewrite.len());
+        docs[di].rewrite.insert(at2, b);
+    }
     Case17 { docs, path: file, layout, header, rows }
 }
 
 /// how many rules hit a record, following the fold (statistics only)
-fn count_hits(rules: &[config_rule::R], payee0: &str, cat: &str, sym: &str) -> usize {
+fn count_hits(rules: &[config_rule::R], payee0: &str, cat: &str, sym: &str, empty_caps: &mut usize) -> usize {
     let mut payee = payee0.to_string();
     let mut hits = 0;
     for rule in rules {
@@ -160,6 +223,9 @@ fn count_hits(rules: &[config_rule::R], payee0: &str, cat: &str, sym: &str) -> u
                         if *f == RF_PAYEE {
                             if let Some(m) = c.name("payee") {
                                 cap = Some(m.as_str().to_string());
+                            }
+                            if c.name("payee").map(|m| m.as_str().is_empty()).unwrap_or(false) || c.name("code").map(|m| m.as_str().is_empty()).unwrap_or(false) {
+                                *empty_caps += 1;
                             }
                         }
                     }
@@ -192,6 +258,7 @@ pub fn emit(sh: &mut Shards, st: &mut Stats, c: &Case17, tag: &str) {
     let sel = run_select(&yaml, &c.path);
     let csv = csv_text(&[], &c.header, &c.rows, ',', false);
     let mut max_hits = 0;
+    let mut empty_caps = 0usize;
     let imp = match &sel {
         SelObs::Ok(e) => {
             let mut e2 = e.clone();
@@ -219,7 +286,7 @@ pub fn emit(sh: &mut Shards, st: &mut Stats, c: &Case17, tag: &str) {
                 })
                 .collect();
             for row in &c.rows {
-                max_hits = max_hits.max(count_hits(&rules, &row.fields[1], &row.fields[2], &row.fields[3]));
+                max_hits = max_hits.max(count_hits(&rules, &row.fields[1], &row.fields[2], &row.fields[3], &mut empty_caps));
             }
             run_import(&csv, &e2)
         }
@@ -230,7 +297,21 @@ pub fn emit(sh: &mut Shards, st: &mut Stats, c: &Case17, tag: &str) {
     st.eval(&(yaml.clone(), c.path.clone(), csv.clone(), c.layout.term()), nontrivial);
     st.count(&format!("gen:{}", tag));
     st.count(&format!("docs_matching:{}", matching_docs.min(4)));
+    for d in &c.docs {
+        if let Some(stem) = d.path.strip_suffix('/') {
+            if !stem.is_empty() {
+                st.count(match (c.path.contains(&d.path), c.path.contains(stem)) {
+                    (true, _) => "doc_path_with_trailing_slash:occurs",
+                    (false, true) => "doc_path_with_trailing_slash:only_without_the_slash_occurs",
+                    (false, false) => "doc_path_with_trailing_slash:absent",
+                });
+            }
+        }
+    }
     st.count(&format!("max_rules_hitting_a_record:{}", max_hits.min(4)));
+    if empty_caps > 0 && matches!(imp, ImpObs::Ok(..)) {
+        st.count("cases_with_a_named_group_matching_empty");
+    }
     st.count(match &sel {
         SelObs::None => "select:none",
         SelObs::Err(..) => "select:invalid_config",
@@ -311,8 +392,8 @@ fn corpus_cases(o: &Opts) -> (Vec<Case17>, bool) {
 pub fn run(o: &Opts) {
     let mut st = Stats::new();
     let mut sh = Shards::new(&o.out, if o.thorough { o.shards * 6 } else { o.shards }, &format!("{} Run.Classify_C17.\nImport ListNotations.\nOpen Scope N_scope.", HEADER));
-    st.rule = "1-4 YAML documents (random subsets of encoding/account/account_type/operator/commodity/format, 0-4 rewrite rules each with single/OR-list matchers over payee/category/secondary_commodity, capture groups, payee/account/pending/conversion settings; paths drawn as substrings of the file path with frequent equal lengths) through load_from_yaml and ConfigSet::select; then 1-4 CSV records through import::import(Csv) under the selected entry (its `format` replaced by the harness's column layout) and Txn::to_double_entry; non-trivial = at least two documents match the path, or at least two rules hit one record; distinct by YAML + path + CSV".into();
-    st.assumptions.push("matcher patterns come from a small language (literal / [0-9]+ / .* atoms, optional ^ $, named groups payee and code) for which leftmost-first backtracking in the model is what the regex crate computes; text is UTF-8 without line breaks".into());
+    st.rule = "1-4 YAML documents (random subsets of encoding/account/account_type/operator/commodity/format, 0-4 rewrite rules each with single/OR-list matchers over payee/category/secondary_commodity, capture groups including ones that match the empty string on a record (`Lit(?P<payee>.*)`, `(?P<code>\\d*)`) followed by rules that tell the emptied payee from the original, payee/account/pending/conversion settings; paths drawn as substrings of the file path with frequent equal lengths, as directory prefixes with a trailing '/' where the file path continues the name with other characters (bank/ against bankcard/, bank.old/) or not, and as ./x, x//y, x/./y shapes) through load_from_yaml and ConfigSet::select; then 1-4 CSV records through import::import(Csv) under the selected entry (its `format` replaced by the harness's column layout) and Txn::to_double_entry; non-trivial = at least two documents match the path, or at least two rules hit one record; distinct by YAML + path + CSV".into();
+    st.assumptions.push("matcher patterns come from a small language (literal / [0-9]+ / \\d* / .* atoms, optional ^ $, named groups payee and code) for which leftmost-first backtracking in the model is what the regex crate computes; text is UTF-8 without line breaks".into());
     st.assumptions.push("file paths are valid Unicode and use '/' (on this platform PathBufExt::from_slash is the identity)".into());
     let (corpus, replay) = corpus_cases(o);
     for c in &corpus {
